@@ -435,9 +435,19 @@ def inplace_param_mutations(source):
                     for x in ast.walk(t):
                         if isinstance(x, ast.Name) and isinstance(x.ctx, ast.Store) and not isinstance(t, ast.Subscript):
                             rebound[x.id] = min(rebound.get(x.id, st.lineno), st.lineno)
+        # a parameter is a sequence (where `p += x` works in place) when the function takes its length, subscripts or iterates it;
+        # augmented assignments to number parameters (`reg >>= 1`, `timeout += 1`) re-bind a local and change nothing outside
+        seq = set()
+        for x in ast.walk(f):
+            if isinstance(x, ast.Call) and isinstance(x.func, ast.Name) and x.func.id in ('len', 'bytes', 'bytearray', 'hexlify') and x.args and isinstance(x.args[0], ast.Name):
+                seq.add(x.args[0].id)
+            elif isinstance(x, ast.Subscript) and isinstance(x.value, ast.Name):
+                seq.add(x.value.id)
+            elif isinstance(x, (ast.For, ast.comprehension)) and isinstance(x.iter, ast.Name):
+                seq.add(x.iter.id)
         for st in ast.walk(f):
             hit = None
-            if isinstance(st, ast.AugAssign) and isinstance(st.target, ast.Name):
+            if isinstance(st, ast.AugAssign) and isinstance(st.target, ast.Name) and isinstance(st.op, (ast.Add, ast.Mult)) and st.target.id in seq:
                 hit = st.target.id
             elif isinstance(st, ast.AugAssign) and isinstance(st.target, ast.Subscript) and isinstance(st.target.value, ast.Name):
                 hit = st.target.value.id
@@ -655,6 +665,11 @@ for _site in (("nfc.tag.tt1.Type1Tag.read_segment", "raise ValueError('invalid s
     triage.add('C16', 'C16-R1', key('ValueError', 'raised in ' + _site[0], _site[1]), _site[2], _site[3])
 
 MUTANTS = [
+    ('add-crc-a-in-place', 'nfc.clf.device', "        return data + bytearray([crc & 0xff, crc >> 8])", "        data += bytearray([crc & 0xff, crc >> 8])\n        return data", 'C16-R3'),
+    ('tt3-format-retries-write', 'nfc.tag.tt3', """            except Type3TagCommandError:
+                nbw -= 1
+                break""", """            except Type3TagCommandError:
+                continue""", 'C16-R3'),
     ('tt3-write-uses-unreadable-attributes', 'nfc.tag.tt3', """            if attributes is None:
                 # the attribute block was unreadable or failed the checksum
                 raise Type3TagCommandError(nfc.tag.RECEIVE_ERROR)
